@@ -101,12 +101,41 @@ class ModelObj:
 
 
 class FuncObj:
-    """a function object created by a nested `def` (not executed): its node, the attributes stored on it and the
-    (live) environment it closes over"""
+    """a function object created by a nested `def`: its node, the attributes stored on it and the (live) environment it
+    closes over; calling it interprets the body in a child of that environment"""
     def __init__(self, node, env):
         self.node = node
         self.env = env
         self.attrs = {}
+
+    def __call__(self, *args, **kwargs):
+        node = self.node
+        prm = A.params(node)
+        if len(args) > len(prm) and node.args.vararg is None:
+            raise Raised("TypeError")
+        env = dict(self.env)          # closure variables are read through the defining environment (late binding)
+        dflt = node.args.defaults
+        for i, n in enumerate(prm):
+            if i < len(args):
+                env[n] = args[i]
+            elif n in kwargs:
+                env[n] = kwargs.pop(n)
+            else:
+                j = i - (len(prm) - len(dflt))
+                if j < 0:
+                    raise Raised("TypeError")
+                env[n] = _ev(dflt[j], self.env)
+        if node.args.vararg is not None:
+            env[node.args.vararg.arg] = tuple(args[len(prm):])
+        if kwargs and node.args.kwarg is None:
+            raise Raised("TypeError")
+        if node.args.kwarg is not None:
+            env[node.args.kwarg.arg] = dict(kwargs)
+        try:
+            _block(node.body, env)
+        except _Ret as r:
+            return r.v
+        return None
 
     def __repr__(self):
         return "<function %s>" % self.attrs.get("__name__", self.node.name)
@@ -434,6 +463,9 @@ def _ev(e, env):
         import builtins as _bi
         if isinstance(getattr(_bi, e.id, None), type) and issubclass(getattr(_bi, e.id), BaseException):
             return ExcClass(e.id)               # a built-in exception class used as a value
+        if e.id in ("tuple", "frozenset", "slice", "int", "float", "bool", "complex", "str", "bytes", "list", "dict", "set",
+                    "bytearray", "object", "NotImplemented", "Ellipsis", "range"):
+            return getattr(_bi, e.id)           # a built-in type / singleton used as a value (type(x) is tuple, ...)
         raise AnalysisError("miniinterp: unknown name %s" % e.id)
     if isinstance(e, ast.Attribute):
         if isinstance(e.value, ast.Name) and env.get(e.value.id) == "__SELF__":
@@ -481,6 +513,10 @@ def _ev(e, env):
                 return getattr(base, e.attr)
             except AttributeError:
                 raise Raised("AttributeError")
+        if isinstance(base, slice) and e.attr in ("start", "stop", "step"):
+            return getattr(base, e.attr)
+        if isinstance(base, complex) and e.attr in ("real", "imag"):
+            return getattr(base, e.attr)
         raise AnalysisError("miniinterp: unsupported attribute %s" % A.src(e))
     if isinstance(e, ast.Subscript):
         base = _ev(e.value, env)
@@ -546,24 +582,32 @@ def _ev(e, env):
         left = _ev(e.left, env)
         for op, c in zip(e.ops, e.comparators):
             right = _ev(c, env)
-            r = {ast.Eq: lambda: left == right, ast.NotEq: lambda: left != right, ast.Lt: lambda: left < right,
-                 ast.LtE: lambda: left <= right, ast.Gt: lambda: left > right, ast.GtE: lambda: left >= right,
-                 ast.Is: lambda: left is right, ast.IsNot: lambda: left is not right,
-                 ast.In: lambda: left in right, ast.NotIn: lambda: left not in right}[type(op)]()
+            try:
+                r = {ast.Eq: lambda: left == right, ast.NotEq: lambda: left != right, ast.Lt: lambda: left < right,
+                     ast.LtE: lambda: left <= right, ast.Gt: lambda: left > right, ast.GtE: lambda: left >= right,
+                     ast.Is: lambda: left is right, ast.IsNot: lambda: left is not right,
+                     ast.In: lambda: left in right, ast.NotIn: lambda: left not in right}[type(op)]()
+            except TypeError:
+                raise Raised("TypeError")       # unorderable operands / membership test on a non-container
             if not r:
                 return False
             left = right
         return True
     if isinstance(e, ast.IfExp):
         return _ev(e.body, env) if _ev(e.test, env) else _ev(e.orelse, env)
-    if isinstance(e, ast.DictComp) and len(e.generators) == 1:
-        gen = e.generators[0]
+    if isinstance(e, ast.DictComp):
         out = {}
-        for item in list(_ev(gen.iter, env)):
-            env2 = dict(env)
-            _store(gen.target, item, env2)
-            if all(_ev(c, env2) for c in gen.ifs):
-                out[_ev(e.key, env2)] = _ev(e.value, env2)
+
+        def rec_dc(gens, env_):
+            if not gens:
+                out[_ev(e.key, env_)] = _ev(e.value, env_)
+                return
+            for item in list(_ev(gens[0].iter, env_)):
+                env2 = dict(env_)
+                _store(gens[0].target, item, env2)
+                if all(_ev(c, env2) for c in gens[0].ifs):
+                    rec_dc(gens[1:], env2)
+        rec_dc(list(e.generators), env)
         return out
     if isinstance(e, ast.GeneratorExp) and len(e.generators) == 1:
         # lazy and single-use, as in Python: a second consumer finds it exhausted
@@ -671,6 +715,21 @@ def _ev(e, env):
             if isinstance(v, ModelObj):
                 return nm in v.attrs
             raise AnalysisError("miniinterp: hasattr() of a non-model value")
+        if d in ("partial", "functools.partial") and e.args:
+            f_ = _ev(e.args[0], env)
+            bound_ = [_ev(a, env) for a in e.args[1:]]
+            kw_ = {k.arg: _ev(k.value, env) for k in e.keywords if k.arg}
+            if not callable(f_):
+                raise Raised("TypeError")
+            return lambda *a, **k: f_(*bound_, *a, **dict(kw_, **k))      # arguments bound now, as functools.partial does
+        if d in ("map", "filter") and len(e.args) >= 2:
+            fn_ = _ev(e.args[0], env)
+            seqs_ = [_ev(a, env) for a in e.args[1:]]
+            if fn_ is None and d == "filter":
+                fn_ = bool
+            if not callable(fn_):
+                raise Raised("TypeError")
+            return map(fn_, *seqs_) if d == "map" else filter(fn_, *seqs_)      # lazy, as in Python 3
         if d in ("len", "max", "min", "list", "tuple", "str", "set", "dict", "frozenset", "bool", "int", "range", "enumerate",
                  "zip", "abs", "divmod", "any", "all", "sum", "bytes", "iter", "next"):
             try:
